@@ -158,7 +158,7 @@ class Policy:
 
 class Baton:
     def __init__(self, fns, policy, tiers, max_points=2_000_000, wait=120.0,
-                 instruction_level=True):
+                 instruction_level=True, extra_instruction_codes=()):
         self.fns = fns
         self.n = len(fns)
         self.policy = policy
@@ -177,6 +177,7 @@ class Baton:
         self.tidmap = {}
         self.errors = []
         self.instruction_level = instruction_level
+        self.extra_codes = list(extra_instruction_codes)
         self._exit_i = 0
 
     # -- tracing
@@ -260,6 +261,7 @@ class Baton:
 
     def run(self):
         hot_codes = [c for c, t in self.tiers.items() if t == "A"] if self.instruction_level else []
+        hot_codes = hot_codes + [c for c in self.extra_codes if c not in hot_codes]
         registered = False
         try:
             if hot_codes:
